@@ -124,6 +124,9 @@ _md_numeral_pat = re.compile(r"^[0-9]+[.)]$")
 # (`---`, `***`, `___`, `===`, `--`, `=`).
 _md_rule_pat = re.compile(r"^(-{2,}|=+|\*{3,}|_{3,})$")
 
+# Words that alone on a line are a thematic break.
+_md_thematic_pat = re.compile(r"^(-{3,}|\*{3,}|_{3,})$")
+
 # Words that open a fenced code block at the start of a line. (A backtick fence cannot have
 # another backtick later in the word; such a word is a code span.)
 _md_fence_pat = re.compile(r"^(`{3,})[^`]*$|^(~{3,})")
@@ -236,6 +239,11 @@ def wrap_paragraph_lines(
         if drop_whitespace:
             line = line.strip()
         lines.append(line)
+
+    # A paragraph may begin with a word like `---` (as in `--- and more`). If wrapping
+    # leaves it alone on the first line, it would become a thematic break (or frontmatter).
+    if is_markdown and len(lines) > 1 and _md_thematic_pat.match(lines[0]):
+        lines[0] = markdown_escape_word(lines[0])
 
     return lines
 
